@@ -817,3 +817,51 @@ pub fn replay(v: &Value) -> i32 {
         0
     }
 }
+
+/// Dump reference-model cases as JSON lines for cross-checking the model against an
+/// independent implementation (CPython's `zoneinfo`, see tools_model_vs_zoneinfo.py):
+/// per zone its TZif bytes, instants with the offset the model prescribes, and wall clocks with
+/// the offsets of their pre-image (earliest first).
+pub fn dump_model_cases(seed: u64, n: u64) -> i32 {
+    let sys = SysZones::load();
+    let lo = -2_208_988_800i64; // 1900
+    let hi = 7_258_118_400i64; // 2200
+    for (class, count) in [(Class::Sys, sys.zones.len() as u64), (Class::Synth, n), (Class::Rule, n)] {
+        for i in 0..count {
+            let (case, mut rng) = match make_case(seed, i, class, &sys) {
+                Some(c) => c,
+                None => continue,
+            };
+            if case.tight {
+                continue;
+            }
+            // a rule zone is dumped as a v3 file with only a footer
+            let bytes: Vec<u8> = match &case.rule {
+                Some(r) => {
+                    let m = ZoneModel { types: case.model.types.clone(), trans: vec![], leaps: vec![], rule: None };
+                    let o = tzif::TzifOpts { version: 3, fat_v1: false, isstd: vec![], isut: vec![], share_suffix: false, footer: r.clone() };
+                    tzif::write(&m, &o).0
+                }
+                None => case.tzif.to_vec(),
+            };
+            let p = make_probes(&case.model, &mut rng, 40, 40);
+            let offs = case.model.offsets();
+            let inst: Vec<(i64, i32)> = p.instants.iter().filter(|&&u| u > lo && u < hi).map(|&u| (u, case.model.at(u).utoff)).collect();
+            let walls: Vec<(i64, Vec<i32>)> = p
+                .walls
+                .iter()
+                .filter(|&&w| w > lo && w < hi)
+                .map(|&w| (w, case.model.preimage(w, &offs).iter().map(|x| x.1).collect()))
+                .collect();
+            // CPython uses the first *standard* type before the first transition (a tzcode
+            // heuristic), RFC 8536 and the statement of C05 say type 0: tell the script when the two
+            // coincide
+            let type0_ok = case.model.types.first().map_or(true, |t0| {
+                !t0.dst || case.model.types.iter().all(|t| t.dst)
+            });
+            println!("{}", json!({"label": case.label, "hex": crate::plan::hexbytes::hex(&bytes), "instants": inst, "walls": walls,
+                "first_transition": case.model.trans.first().map(|t| t.0), "has_rule": case.model.rule.is_some(), "type0_is_first_standard_type": type0_ok}));
+        }
+    }
+    0
+}
